@@ -129,8 +129,8 @@ COQCHK_EXTRA = ("Xds.Properties.C07Skel",)
 import os, re, subprocess
 from . import core
 
-SKEL_THEOREMS = ["C07_lock_discipline", "C07_policy_before_data", "C07_handlers_do_not_reenter",
-                 "C07_blocking_send_under_locks_without_capacity", "C07_queue_consumer_never_waits_for_a_lock", "C07_every_path_checked", "C07_no_lock_deadlock", "C07_no_data_race"]
+SKEL_THEOREMS = ["C07_lock_discipline", "C07_policy_before_data", "C07_policy_before_data_on_every_path", "C07_handlers_do_not_reenter",
+                 "C07_blocking_send_under_locks_without_capacity", "C07_queue_consumer_never_waits_for_a_lock", "C07_every_path_checked", "C07_paths_exist", "C07_no_lock_deadlock", "C07_no_data_race"]
 SKEL_THEOREMS_FULL = ["C07_every_path_checked_full", "C07_no_lock_deadlock_full", "C07_no_data_race_full"]
 
 
